@@ -78,7 +78,7 @@ def run(tier):
     r0 = vf.tlc_must_pass('RegpReqMC.tla', 'RegpReqMCq.cfg' if quick else 'RegpReqMC.cfg', 'regpreq', heap='16g',
                           sink=lambda b: cases.append(flavoured(b[3:])) if b.startswith('C;;') else None)
     v.add_tlc(r0)
-    res1 = vf.run_scripts('regp', [cases[i:i + 500] for i in range(0, len(cases), 500)], 'C06', name='rqc')
+    res1 = vf.run_scripts('regp', [cases[i:i + 500] for i in range(0, len(cases), 500)], 'C06', name='rqc', flavours=3, flav_every=25)
     v.exec_problems(res1, 'regp')
     v.cov['traces_validated_against_impl'] += len(cases)
     v.cov['evaluations'] += res1.checked
@@ -87,7 +87,7 @@ def run(tier):
     ss = []
     for rnd in vf.rounds(tier, 8):
         ss += list(scripts(rnd, quick))
-    vf.trace_flow(v, 'RegpTrace.tla', 'RegpTrace.cfg', 'regp', ss, 'req')
+    vf.trace_flow(v, 'RegpTrace.tla', 'RegpTrace.cfg', 'regp', ss, 'req', flavours=3)
     v.cov['distinct_nontrivial'] += len(set(l for s in ss for l in s))
     v.cov['rule'] = ('read/write x 8/16-bit requests x 2 transports x 2 memory word sizes x boundary addresses x block sizes x 12 backend verdicts, plus responses/meta as input; '
                      'each recorded run validated by TLC (RxOK). distinct_nontrivial = distinct runs.')
